@@ -248,6 +248,8 @@ class ChassisStatus(State):
             self.front_panel_button_capabilities = \
                     rsp.front_panel_button_capabilities
 
+        self.last_event = []
+        self.chassis_state = []
         if rsp.last_power_event.ac_failed:
             self.last_event.append('ac_failed')
         if rsp.last_power_event.power_overload:
